@@ -34,13 +34,30 @@ def profile_bigdir(draw):
     sub = draw(st.booleans())
     nodes = [_dir(b"d")] if sub else []
     pre = b"d/" if sub else b""
-    kinds = draw(st.sampled_from(["files", "mixed", "dirs"]))
+    # small inodes (fifo/socket 20, device 24, short symlink 24+, hard link 0 bytes) put more than 256 inodes into one
+    # metadata block, so only the 256-entries-per-header rule ends a run there
+    kinds = draw(st.sampled_from(["files", "mixed", "dirs", "fifos", "devs", "slinks", "hlinks", "smallmix"]))
+    first = None
     for i in range(n):
         name = (b"%04d" % i).ljust(max(nl, 4), b"n")
+        base = dict(path=pre + name, mode=0o644, uid=0, gid=0, mtime=0, xattrs={})
+        k = kinds if kinds != "smallmix" else ["fifos", "devs", "slinks", "hlinks", "fifos"][i % 5]
         if kinds == "files" or (kinds == "mixed" and i % 3):
             nodes.append(_file(pre + name, ("lit", b"%d" % (i % 7)), uid=i % 3, mode=0o600 + (i % 64)))
-        else:
+        elif kinds in ("mixed", "dirs"):
             nodes.append(_dir(pre + name, gid=i % 5))
+        elif k == "fifos":
+            nodes.append(dict(base, type="fifo" if i % 2 else "sock"))
+        elif k == "devs":
+            nodes.append(dict(base, type="chr" if i % 2 else "blk", major=i % 7, minor=i))
+        elif k == "slinks":
+            nodes.append(dict(base, type="slink", mode=0o777, target=b"t%d" % (i % 10)))
+        else:
+            if first is None:
+                first = pre + name
+                nodes.append(_file(pre + name, ("lit", b"linked")))
+            else:
+                nodes.append(dict(base, type="hlink", target=first))
     return nodes
 
 
@@ -129,6 +146,8 @@ def cases(draw, tier="quick"):
         o["B"] = 4096
         if prof == "bigdir":
             case["nodes"] = draw(profile_bigdir())
+            if any(n["type"] not in ("file", "dir") for n in case["nodes"]):
+                case["mode"] = "file"
         elif prof == "meta":
             case["nodes"] = draw(profile_metablocks())
         elif prof == "xattr_sets":
